@@ -96,6 +96,9 @@ class Prop(core.Prop):
                     yield {'part': 'apply', 'src': group['src'], 'tgt': tgt, 'form': form, 'cint': True}
                     # a variable with missing cells is interpolated first: the later, complete variables stay exact
                     yield {'part': 'apply', 'src': group['src'], 'tgt': tgt, 'form': form, 'maskfirst': True}
+                # the old coordinate is taken from another 1-D variable (coordkey): the variable named like the
+                # dimension is then a variable like any other
+                yield {'part': 'apply', 'src': group['src'], 'tgt': tgt, 'form': 'interpDimension', 'coordkey': True}
             # large-magnitude coordinates (seconds since 1970, Pa): as many targets as sources, each shifted by a
             # quarter of a step - a relative change far below 1e-5
             for form in ('interpDimension', 'interpvars'):
@@ -162,10 +165,11 @@ class Prop(core.Prop):
         from PseudoNetCDF.coordutil import getinterpweights
         src, tgt, form = case['src'], case['tgt'], case['form']
         n = len(src)
-        st = [h64('a', src), h64('a', src, tgt, form, case.get('cint'), case.get('big'), case.get('maskfirst'))]
+        st = [h64('a', src), h64('a', src, tgt, form, case.get('cint'), case.get('big'), case.get('maskfirst'), case.get('coordkey'))]
         vs = []
         scope = dict(form=form, nsrc=n, ntgt=len(tgt), square=bool(n == len(tgt)), cint=bool(case.get('cint')),
-                     big=bool(case.get('big')), maskfirst=bool(case.get('maskfirst')))
+                     big=bool(case.get('big')), maskfirst=bool(case.get('maskfirst')),
+                     coordkey=bool(case.get('coordkey')))
         sig = (form,)
         xs, nxs = np.array(src, 'd'), np.array(tgt, 'd')
         if case.get('big'):
@@ -200,7 +204,11 @@ class Prop(core.Prop):
             ak[...] = 1. + 2. * xs[:, None] + 3. * xs[None, :]
             want = (rng % 3 + 1.).take([0], axis=ax) * 0   # placeholder shape
             try:
-                if form == 'interpDimension':
+                if case.get('coordkey'):
+                    pc = f.createVariable('pc', 'd', (dname,))
+                    pc[:] = 2. * xs + 5.
+                    g = f.interpDimension(dname, 2. * nxs + 5., coordkey='pc')
+                elif form == 'interpDimension':
                     g = f.interpDimension(dname, nxs)
                 else:
                     from PseudoNetCDF.core._functions import interpvars
@@ -221,7 +229,9 @@ class Prop(core.Prop):
                                % (dname, len(f.dimensions[dname]), '; '.join(swf)), dim=dname, **scope))
                 continue
             try:
-                if form == 'interpDimension':
+                if case.get('coordkey'):
+                    g2 = f.interpDimension(dname, 2. * nxs + 5., coordkey='pc')
+                elif form == 'interpDimension':
                     g2 = f.interpDimension(dname, nxs)
                 else:
                     g2 = interpvars(f, getinterpweights(xs, nxs).T, dname)
@@ -251,6 +261,12 @@ class Prop(core.Prop):
                                'AK(%s,%s) src %s tgt %s: %s expected %s' % (dname, dname, src, tgt,
                                                                            rfile._short(gak), rfile._short(wak)),
                                dim=dname, repeated=True, **scope))
+            if case.get('coordkey'):
+                # the variable named like the dimension is linear in pc: it comes out as the clipped targets
+                gd = np.asarray(g.variables[dname][...], 'd')
+                if gd.shape != cx.shape or relerr(gd, cx) > 1e-10:
+                    vs.append(viol('interpolated-values', sig + (dname, 'coordkey'),
+                                   'variable %s with coordkey=pc: %s expected %s' % (dname, gd, cx), dim=dname, **scope))
             if len(g.dimensions[dname]) != len(tgt):
                 vs.append(viol('dimension-length', sig + (dname,), '%d != %d' % (len(g.dimensions[dname]),
                                                                               len(tgt)), dim=dname, **scope))
@@ -259,7 +275,7 @@ class Prop(core.Prop):
         if form == 'interpDimension':
             vs.extend(self.nd_branch(xs, nxs, scope))
         return result('viol' if vs else 'ok-apply', vs, st, 3,
-                      h64('a', src, tgt, form, case.get('cint'), case.get('big'), case.get('maskfirst')) if (list(src) != list(tgt) or case.get('big')) else None,
+                      h64('a', src, tgt, form, case.get('cint'), case.get('big'), case.get('maskfirst'), case.get('coordkey')) if (list(src) != list(tgt) or case.get('big')) else None,
                       h64('ok') if not vs else None)
 
     def nd_branch(self, xs, nxs, scope):
